@@ -11,14 +11,22 @@ rq recv <hex>             SyncRequester::receive
 rq push <hex>             SyncIncoming::decode, then receive_push if it is a push
 rq poll                   SyncRequester::poll (provider without the graph)
 rq ready
-rs new | rs recv <hex> | rs ready | rs poll      SyncResponder
+rs new | rs recv <hex> | rs ready | rs poll [more]      SyncResponder
+rs push <nonempty>        SyncResponder::push
+world <seed> <nodes> <prefix> <graph> | world none   both replicas get storage holding <graph>
+rq gpoll | rq gadd | rq gcommit    poll with real storage (sample not modelled); add_commands/commit
+gheads <hex>              decode, then PeerCache::add_command for every advertised head
 ```
+`more` / `nonempty` are the one bit storage contributes to the responder's message-level
+behaviour; the harness reports what the real storage did.
 -/
 open AranyaV.SyncMsg AranyaV.Postcard AranyaV.Wire AranyaV.Gen.SyncWire
 
 structure St where
   rq : Requester := Requester.newSessionId [] 0
   rs : Responder := Responder.new
+  /-- the graph both replicas' storage providers have (`world` line), if any -/
+  world : Option Bytes := none
 
 def hx (b : Bytes) : String := Driver.toHex b
 
@@ -105,8 +113,43 @@ def showIncoming : Incoming → String
   | .push g s _ _ => s!"ok push {hx g} {s}"
   | .hello h => s!"ok hello {showHello h}"
 
+def showPollOut : Except SyncErr PollOut → String
+  | .error e => showErr e
+  | .ok (.bytes b) => s!"ok {hx b}"
+  | .ok (.response s i) => s!"ok resp {s} {i}"
+  | .ok (.push s i) => s!"ok push {s} {i}"
+  | .ok .empty => "ok empty"
+
 def step (st : St) (toks : List String) : St × String :=
   match toks with
+  | ["world", "none"] => ({ st with world := none }, "ok")
+  | ["world", _seed, _nodes, _prefix, g] =>
+    match Driver.hex? g with
+    | some g => ({ st with world := some g }, "ok")
+    | none => (st, "bad-op")
+  | ["gheads", h] =>
+    match Driver.hex? h with
+    | some bs => (st, match decodeIncoming bs with | .ok _ => "ok" | .error e => showErr e)
+    | none => (st, "bad-op")
+  | ["rq", "gpoll"] =>
+    let (r', res) := st.rq.poll
+    ({ st with rq := r' },
+      if st.rq.state = .new then "ok request"
+      else match res with | .ok b => s!"ok {hx b}" | .error e => showErr e)
+  | ["rq", "gadd"] => (st, "done")
+  | ["rq", "gcommit"] => (st, "done")
+  | ["rs", "poll", m] =>
+    match Driver.bool? m with
+    | some m =>
+      let (p', res) := st.rs.poll st.world m
+      ({ st with rs := p' }, showPollOut res)
+    | none => (st, "bad-op")
+  | ["rs", "push", m] =>
+    match Driver.bool? m with
+    | some m =>
+      let (p', res) := st.rs.push st.world m
+      ({ st with rs := p' }, showPollOut res)
+    | none => (st, "bad-op")
   | ["decode", h] =>
     match Driver.hex? h with
     | some bs => (st, match decodeIncoming bs with | .ok i => showIncoming i | .error e => showErr e)
@@ -152,8 +195,8 @@ def step (st : St) (toks : List String) : St × String :=
     | none => (st, "bad-op")
   | ["rs", "ready"] => (st, if st.rs.ready then "1" else "0")
   | ["rs", "poll"] =>
-    let (p', res) := st.rs.poll
-    ({ st with rs := p' }, match res with | .ok b => s!"ok {hx b}" | .error e => showErr e)
+    let (p', res) := st.rs.poll st.world false
+    ({ st with rs := p' }, showPollOut res)
   | _ => (st, "bad-op")
 
 def main : IO Unit := Driver.run step {}
